@@ -11,7 +11,10 @@ use std::collections::HashMap;
 #[derive(Serialize, Deserialize)]
 pub struct RewriteData {
   pub fixed: String,
-  // maybe we should have fixed range
+  /// the range replaced by the fix, when it is not the range of the diagnostic
+  /// e.g. the fix has `expandStart`/`expandEnd`
+  #[serde(default, skip_serializing_if = "Option::is_none")]
+  pub range: Option<Range>,
 }
 
 impl RewriteData {
@@ -24,9 +27,34 @@ impl RewriteData {
     rule: &RuleConfig<L>,
   ) -> Option<Self> {
     let fixer = rule.matcher.fixer.as_ref()?;
-    let edit = node_match.replace_by(fixer);
+    let edit = node_match.make_edit(&rule.matcher, fixer);
+    let node_range = node_match.range();
+    let edit_range = edit.position..edit.position + edit.deleted_length;
+    let range = if edit_range == node_range {
+      None
+    } else {
+      let src = node_match.get_node().root().get_text();
+      Some(Range {
+        start: offset_to_position(src, edit_range.start),
+        end: offset_to_position(src, edit_range.end),
+      })
+    };
     let rewrite = String::from_utf8(edit.inserted_text).ok()?;
-    Some(Self { fixed: rewrite })
+    Some(Self {
+      fixed: rewrite,
+      range,
+    })
+  }
+}
+
+/// zero-based line and character column of a byte offset
+fn offset_to_position(src: &str, offset: usize) -> Position {
+  let before = &src[..offset.min(src.len())];
+  let line = before.matches('\n').count();
+  let line_start = before.rfind('\n').map(|i| i + 1).unwrap_or(0);
+  Position {
+    line: line as u32,
+    character: before[line_start..].chars().count() as u32,
   }
 }
 
@@ -36,7 +64,8 @@ pub fn diagnostic_to_code_action(
 ) -> Option<CodeAction> {
   let rewrite_data = RewriteData::from_value(diagnostic.data?)?;
   let mut changes = HashMap::new();
-  let text_edit = TextEdit::new(diagnostic.range, rewrite_data.fixed);
+  let range = rewrite_data.range.unwrap_or(diagnostic.range);
+  let text_edit = TextEdit::new(range, rewrite_data.fixed);
   changes.insert(text_doc.uri.clone(), vec![text_edit]);
 
   let edit = WorkspaceEdit::new(changes);
